@@ -42,7 +42,9 @@ def cases(draw):
     spec = draw(gen.models(FEATS))
     v = draw(gen.vspec_for(spec, spec['doc_type'], hard=True))
     if v is None:
-        v = ['list', []]
+        # no instantiable class for the document type: dump plain data instead
+        spec = dict(spec, doc_type='any')
+        v = draw(gen.vspec_for(spec, 'any', hard=True))
     return {'model': spec, 'value': v, 'share': draw(st.integers(0, 5)) == 0}
 
 
